@@ -10,7 +10,7 @@ import SleapVerif.Model.Datasets
     <scale> <anchor|-1> <cropH> <cropW> <nFrames> {<frameIdx> <videoIdx> <H> <W> <nInst>
     {<kind 0=user 1=predicted> <nNodes> <coords…>}} <seqLen> <i…>`
    → `ok len <n> idx <m> … reads <k> {s <nkeys> {<key> <npts> x y …} <num> <f> <v> <H> <W> | raise}
-      spec <0|1>`   (`spec` = every read equals `specSample`, `len = specLen`, and the built state satisfies `WFds`)
+      spec <0|1>`   (`spec` = every read equals `specSample`, `len = specLen`, the built state satisfies `WFds` and caches exactly `specCache`)
 -/
 open SleapVerif SleapVerif.Proto SleapVerif.Datasets
 
@@ -87,8 +87,11 @@ def dsOp : P String := do
   -- the hypothesis `WFds` of the engine theorems, checked on the built state
   let wfOk := ds0.cache.all fun e => decide (e.1 < ds0.heap.dicts.length) &&
     (ds0.heap.dicts.getD e.1 []).all fun r => decide (r.2.loc < ds0.heap.cells.length)
+  -- the other hypothesis of `getitem_eq_spec`: the cache holds exactly `specCache`
+  let cacheOk := (ds0.cache.map fun e => sampleStr (ds0.heap.readD e.1, e.2))
+    == (specCache cfg castQ fs).map sampleStr
   pure (s!"ok len {ds0.cache.length} idx {idx.length} " ++ natsStr idx ++ s!" reads {outs.length} "
-    ++ " ".intercalate outs ++ s!" spec {if specOk && lenOk && wfOk then 1 else 0}")
+    ++ " ".intercalate outs ++ s!" spec {if specOk && lenOk && wfOk && cacheOk then 1 else 0}")
 
 def handle (line : String) : String :=
   match tokens line with
